@@ -13,8 +13,8 @@ Definition Tz (id : Z) (i : info) (ch : list rt) : rt := T (Z.to_nat id) i ch.
 (* compact renderings (the case files are large literals; Coq's elaboration of
    them dominates the run time):
    result node  = [data object, D, meta, children] with D = 0 for "data_id =
-   hash(data), no kind" (what t2's nodes must look like) and the full
-   (data_id, kind) otherwise; meta keys "dc" / "dc_renumbered" as 1 / 2;
+   hash(data), no kind" (a plain default-id node) and the full (data_id,
+   kind) otherwise; meta keys "dc" / "dc_renumbered" as 1 / 2;
    input node   = [identity, data object, children] (the harness compares
    the full payload of the inputs before/after by itself). *)
 Definition sx_key (k : text) : sx :=
